@@ -24,6 +24,8 @@ FAMILIES = [('OpenSSH_%s', 'OpenSSH', ['7.4', '8.9p1', '9.6', '6.6.1p1', '10.0']
             ('libssh-%s', 'libssh', ['0.9.6', '0.10.4']), ('libssh_%s', 'libssh', ['0.8.1']), ('tinyssh_%s', 'TinySSH', ['noversion', '20190101']),
             ('PuTTY_Release_%s', 'PuTTY', ['0.79', '0.64'])]
 BADBYTES = [bytes([b]) for b in list(range(1, 9)) + list(range(14, 28)) + [127]] + [b'\xff', b'\xfe', b'\x80', b'\xc3\xbc', b'\xe2\x82\xac', b'\xc0']
+# not printable ASCII either, but "white space" or "digits" to a Unicode-aware matcher: inside the software token they are replaced like any other
+BADBYTES += [b'\t', b'\x0b', b'\x0c', b'\x1c', b'\x1d', b'\x1e', b'\x1f', b'\xc2\xa0', b'\xc2\x85', b'\xe2\x80\x83', b'\xd9\xa2']
 
 
 def cases(seed, tier):
@@ -72,6 +74,9 @@ def cases(seed, tier):
             if r2.random() < 0.5 and cut + 40 < n:
                 body = body[:cut] + 'SSH-1.5-legacy_gateway retired' + body[cut + 30:]
             headers.insert(r2.randrange(len(headers) + 1), 'long notice: ' + body if r2.random() < 0.5 else body)
+        if r2.random() < 0.05:
+            # an identification-like header line whose "digits" are not ASCII digits
+            headers.insert(r2.randrange(len(headers) + 1), 'hex:' + 'SSH-\u0662.\u0660-motd gateway'.encode('utf-8').hex())
         inside = rng.random() < 0.3
         net = gen.rand_net(rng, inside_lines=inside)
         yield {'proto': proto, 'software': software, 'sep': seps, 'comments': comments, 'inject': inject, 'headers': headers, 'eol': rng.choice(['\r\n', '\r\n', '\n']),
